@@ -178,7 +178,7 @@ fn infer_binary_expr_add(db: &DbIndex, left: LuaType, right: LuaType) -> InferRe
     if left.is_number() && right.is_number() {
         return match (&left, &right) {
             (LuaType::IntegerConst(int1), LuaType::IntegerConst(int2)) => {
-                Ok(LuaType::IntegerConst(int1 + int2))
+                Ok(LuaType::IntegerConst(int1.wrapping_add(*int2)))
             }
             (LuaType::FloatConst(num1), LuaType::FloatConst(num2)) => {
                 Ok(LuaType::FloatConst(num1 + num2))
@@ -215,7 +215,7 @@ fn infer_binary_expr_sub(db: &DbIndex, left: LuaType, right: LuaType) -> InferRe
     if left.is_number() && right.is_number() {
         return match (&left, &right) {
             (LuaType::IntegerConst(int1), LuaType::IntegerConst(int2)) => {
-                Ok(LuaType::IntegerConst(int1 - int2))
+                Ok(LuaType::IntegerConst(int1.wrapping_sub(*int2)))
             }
             (LuaType::FloatConst(num1), LuaType::FloatConst(num2)) => {
                 Ok(LuaType::FloatConst(num1 - num2))
@@ -243,7 +243,7 @@ fn infer_binary_expr_mul(db: &DbIndex, left: LuaType, right: LuaType) -> InferRe
     if left.is_number() && right.is_number() {
         return match (&left, &right) {
             (LuaType::IntegerConst(int1), LuaType::IntegerConst(int2)) => {
-                Ok(LuaType::IntegerConst(int1 * int2))
+                Ok(LuaType::IntegerConst(int1.wrapping_mul(*int2)))
             }
             (LuaType::FloatConst(num1), LuaType::FloatConst(num2)) => {
                 Ok(LuaType::FloatConst(num1 * num2))
@@ -272,10 +272,10 @@ fn infer_binary_expr_div(db: &DbIndex, left: LuaType, right: LuaType) -> InferRe
         return match (&left, &right) {
             (LuaType::IntegerConst(int1), LuaType::IntegerConst(int2)) => {
                 if *int2 != 0 {
-                    if int1 % int2 != 0 {
+                    if int1.wrapping_rem(*int2) != 0 {
                         return Ok(LuaType::FloatConst(*int1 as f64 / *int2 as f64));
                     } else {
-                        return Ok(LuaType::IntegerConst(int1 / int2));
+                        return Ok(LuaType::IntegerConst(int1.wrapping_div(*int2)));
                     }
                 }
                 Ok(LuaType::Number)
@@ -310,7 +310,7 @@ fn infer_binary_expr_idiv(db: &DbIndex, left: LuaType, right: LuaType) -> InferR
         return match (&left, &right) {
             (LuaType::IntegerConst(int1), LuaType::IntegerConst(int2)) => {
                 if *int2 != 0 {
-                    return Ok(LuaType::IntegerConst(int1 / int2));
+                    return Ok(LuaType::IntegerConst(int1.wrapping_div(*int2)));
                 }
                 Ok(LuaType::Integer)
             }
@@ -326,7 +326,7 @@ fn infer_binary_expr_mod(db: &DbIndex, left: LuaType, right: LuaType) -> InferRe
         return match (&left, &right) {
             (LuaType::IntegerConst(int1), LuaType::IntegerConst(int2)) => {
                 if *int2 != 0 {
-                    return Ok(LuaType::IntegerConst(int1 % int2));
+                    return Ok(LuaType::IntegerConst(int1.wrapping_rem(*int2)));
                 }
                 Ok(LuaType::Integer)
             }
